@@ -443,6 +443,23 @@ func rewriteFile(fc *fileCtx, pkg *types.Package) {
 				removed["os"]++
 				sum.DiskSites++
 			} else if sel, name, pkg, ok := isAnyPkgCall(x.Fun, map[string][]string{
+				"time":        {"Now", "Since"},
+				"os":          {"Getpid"},
+				"math/rand":   {"Int", "Intn", "Int31", "Int31n", "Int63", "Int63n", "Uint32", "Uint64", "Float64", "Float32", "Perm", "Shuffle", "Seed"},
+				"crypto/rand": {"Read"},
+			}); ok {
+				// other process-level sources of nondeterminism: wall clock, pid, global PRNGs
+				fn := name
+				switch pkg {
+				case "math/rand":
+					fn = "Rand" + name
+				case "crypto/rand":
+					fn = "CryptoRandRead"
+				}
+				fc.replace(sel.Pos(), sel.End(), "verifsim."+fn)
+				removed[pkg]++
+				sum.ClockSites++
+			} else if sel, name, pkg, ok := isAnyPkgCall(x.Fun, map[string][]string{
 				"os":        {"OpenFile", "Lstat", "ReadFile", "WriteFile", "Remove", "Rename", "CreateTemp"},
 				"io/ioutil": {"ReadFile", "WriteFile", "TempFile"},
 			}); ok {
